@@ -142,3 +142,85 @@ func durClass(d time.Duration) string {
 	}
 	return "fractional_seconds"
 }
+
+// HugeDurationProbe: durations near the top of what a duration can hold (285-292 years). If the
+// transport accepts such a lease_ttl / nack delay / extend_by, the message must stay hidden for
+// that long: it is looked for right away, one second, one year and five years later (the
+// virtual clock itself stays far below the end of the representable time range). A transport or
+// store that refuses the duration outright is fine.
+func HugeDurationProbe(c *vlib.Ctx, r *vlib.Rand, backend, label string) {
+	w, err := NewWorld(c, Cfg{Backend: backend, Label: label})
+	if err != nil {
+		c.Inconclusive("huge duration probe world: " + err.Error())
+		return
+	}
+	defer w.Close()
+	seq := 0
+	for _, tr := range []string{"direct", "http", "grpc"} {
+		for _, d := range []time.Duration{2500000 * time.Hour, 2562047 * time.Hour} {
+			for _, form := range []string{"lease_ttl", "nack_delay", "nack_delay_batch", "extend_by"} {
+				seq++
+				id := fmt.Sprintf("h%04d", seq)
+				if err := w.h.Store.Enqueue(queue.Envelope{ID: id, Route: route, Target: "pull", Payload: []byte(id)}); err != nil {
+					c.Inconclusive("huge duration probe enqueue: " + err.Error())
+					return
+				}
+				ttl := 30 * time.Second
+				if form == "lease_ttl" {
+					ttl = d
+				}
+				start := w.clock.NowNS()
+				items, err := w.dequeue(tr, 1, ttl)
+				if err != nil || len(items) != 1 || items[0].Msg != id {
+					// refused, or capped away: nothing to observe for this form
+					c.Count("huge_duration_refused", 1)
+					for _, it := range items {
+						_ = w.h.Store.Ack(it.Lease)
+					}
+					_, _ = w.h.Store.CancelMessages(queue.MessageCancelRequest{IDs: []string{id}})
+					continue
+				}
+				lease := items[0].Lease
+				accepted := true
+				switch form {
+				case "nack_delay", "nack_delay_batch":
+					res, _ := w.settle(tr, EvNack, []string{lease}, d, form == "nack_delay_batch")
+					accepted = res[lease]
+				case "extend_by":
+					res, _ := w.settle(tr, EvExtend, []string{lease}, d, false)
+					accepted = res[lease]
+				}
+				c.Count("evaluations", 1)
+				c.Distinct("nontrivial", fmt.Sprintf("huge:%s:%s:%s:accepted=%v", backend, tr, form, accepted))
+				if !accepted {
+					c.Count("huge_duration_refused", 1)
+					_ = w.h.Store.Ack(lease)
+					_, _ = w.h.Store.CancelMessages(queue.MessageCancelRequest{IDs: []string{id}})
+					continue
+				}
+				c.Count("huge_duration_accepted", 1)
+				wit := map[string]any{"label": label, "transport": tr, "form": form, "duration": d.String(), "message": id}
+				// a lease_ttl may be capped by the store's max lease; nack delay and extend_by have no documented cap
+				for _, step := range []time.Duration{0, time.Second, 365 * 24 * time.Hour, 5 * 365 * 24 * time.Hour} {
+					w.clock.AdvanceTo(time.Unix(0, start+int64(step)))
+					got, err := w.dequeue("direct", 10, time.Minute)
+					if err == nil && len(got) > 0 {
+						if form != "lease_ttl" {
+							c.Violation(vlib.Signature{"class": "visible_too_early", "transport": tr, "backend": backend, "case": "huge_duration", "form": form},
+								fmt.Sprintf("%s %s via %s was accepted, but message %s is offered again %s later", form, d, tr, got[0].Msg, step), wit)
+						} else {
+							c.Count("huge_lease_ttl_capped", 1)
+						}
+						for _, g := range got {
+							_ = w.h.Store.Ack(g.Lease)
+						}
+						break
+					}
+				}
+				// take the message out of the way of the next case
+				_, _ = w.h.Store.CancelMessages(queue.MessageCancelRequest{IDs: []string{id}})
+				w.clock.AdvanceTo(time.Unix(0, start))
+			}
+		}
+	}
+}
